@@ -142,7 +142,13 @@ package parser
 //@        (es[k].kind == PROCESS_DEF ==> es[k].proc.Body != nil) &&
 //@        (es[k].kind == EXEC_DEF ==> is(es[k].proc.Body, process.CallForm))
 
+//@ spec countFuns(es []unexpandedProcessOrFunction, n int) int = ite(n <= 0, 0, countFuns(es, n - 1) + ite(es[n-1].kind == FUNCTION_DEF, 1, 0))
 //@ contract expandProcesses
 //@   requires[C11] entriesOK(u.procsAndFuns)
+//@   loop 1 invariant len(functions) == countFuns(u.procsAndFuns, idx + 1)
+//@   callsite C14.execSeesAllFunctions process.GetFunctionByNameArity#1: len(functions) == countFuns(u.procsAndFuns, len(u.procsAndFuns))
 //@   ensures C12.expandEnv: result3 == nil ==> result2 != nil
 //@   safety C11
+
+// An `exec f()` is resolved against ALL function definitions of the text, wherever they are written
+// (C14: permuting top-level declarations does not change the program).
